@@ -552,7 +552,10 @@ impl<'a> Ev<'a> {
             let ty = ctx.as_ref().and_then(|(_, _, tys)| tys.get(i).cloned().flatten());
             let root = names.first().cloned().unwrap_or_else(|| format!("_{}", i));
             let atom = match &ctx {
-                Some((via, over, _)) => with_ty(json!({"k":"elem","of":over,"via":via,"param":root,"pos":i}), ty.clone()),
+                Some((via, over, _)) => {
+                    let of: Value = if size(over) > 250 { json!({"k":"big","ty":ty_of(over)}) } else { (*over).clone() };
+                    with_ty(json!({"k":"elem","of":of,"via":via,"param":root,"pos":i}), ty.clone())
+                }
                 None => with_ty(json!({"k":"atom","root":root,"root_ty":ty,"path":[],"cparam":id}), ty.clone()),
             };
             self.bind_pat(p, &atom);
@@ -566,7 +569,7 @@ impl<'a> Ev<'a> {
         let body = self.expr(&c.body, "closure_tail");
         self.guards.pop();
         self.env.pop();
-        let body = if size(&body) > 500 { json!({"k":"big"}) } else { body };
+        let body = if size(&body) > 1500 { json!({"k":"big"}) } else { body };
         json!({"k":"closure","id":id,"params":params,"body":body,"line":line_of(c)})
     }
 
